@@ -249,6 +249,21 @@ func (d *dtEnum) canon(p *dtPath, e ast.Expr) string {
 		if x.Type != nil {
 			t = types.ExprString(x.Type)
 		}
+		// keyed struct literals list their fields in declaration order, so that a literal and the same
+		// value built by field-by-field assignment print alike
+		if st, ok := structOf(d.info.TypeOf(x)); ok && len(x.Elts) > 0 {
+			if _, keyed := x.Elts[0].(*ast.KeyValueExpr); keyed {
+				vals := map[string]string{}
+				for _, e := range x.Elts {
+					if kv, ok := e.(*ast.KeyValueExpr); ok {
+						if id, ok := kv.Key.(*ast.Ident); ok {
+							vals[id.Name] = d.canon(p, kv.Value)
+						}
+					}
+				}
+				return renderStructLit(t, st, vals)
+			}
+		}
 		return t + "{" + strings.Join(el, ", ") + "}"
 	case *ast.FuncLit:
 		return "func-literal"
@@ -423,6 +438,15 @@ func (d *dtEnum) stmt(p *dtPath, s ast.Stmt, k func(p *dtPath)) {
 	case *ast.BlockStmt:
 		d.stmts(p, x.List, k)
 	case *ast.ReturnStmt:
+		// 'return f(...)' with f a followable function of the package: f's paths decide what is returned
+		if len(x.Results) == 1 && d.callInline != nil {
+			if call, ok := ast.Unparen(x.Results[0]).(*ast.CallExpr); ok {
+				pos := x.Pos()
+				if d.follow(p, call, func(q *dtPath, rets []string) { d.returnWith(q, rets, pos) }) {
+					return
+				}
+			}
+		}
 		if n := len(d.frames); n > 0 {
 			// return from a followed call: hand the values to the caller's continuation
 			f := d.frames[n-1]
@@ -535,6 +559,9 @@ func (d *dtEnum) stmt(p *dtPath, s ast.Stmt, k func(p *dtPath)) {
 					}
 				} else {
 					p.Steps = append(p.Steps, "store "+d.canon(p, l)+" = "+vals[i])
+					if x.Tok == token.ASSIGN {
+						d.fieldStore(p, l, vals[i])
+					}
 				}
 			}
 		case len(x.Rhs) == 1:
@@ -1011,4 +1038,138 @@ func sprintfParts(d *dtEnum, p *dtPath, format string, args []ast.Expr) ([]strin
 		return nil, false
 	}
 	return parts, true
+}
+
+func structOf(t types.Type) (*types.Struct, bool) {
+	if t == nil {
+		return nil, false
+	}
+	if p, ok := t.Underlying().(*types.Pointer); ok {
+		t = p.Elem()
+	}
+	st, ok := t.Underlying().(*types.Struct)
+	return st, ok
+}
+
+func renderStructLit(typ string, st *types.Struct, vals map[string]string) string {
+	var el []string
+	for i := 0; i < st.NumFields(); i++ {
+		if v, ok := vals[st.Field(i).Name()]; ok {
+			el = append(el, st.Field(i).Name()+": "+v)
+		}
+	}
+	return typ + "{" + strings.Join(el, ", ") + "}"
+}
+
+// splitStructLit parses "T{A: x, B: y}" (as printed by canon) into its type prefix and fields.
+func splitStructLit(s string) (string, map[string]string, bool) {
+	i := strings.Index(s, "{")
+	if i < 0 || !strings.HasSuffix(s, "}") {
+		return "", nil, false
+	}
+	typ, body := s[:i], s[i+1:len(s)-1]
+	if strings.ContainsAny(typ, "( ") {
+		return "", nil, false
+	}
+	vals := map[string]string{}
+	depth, start := 0, 0
+	inStr := false
+	flush := func(end int) bool {
+		part := strings.TrimSpace(body[start:end])
+		if part == "" {
+			return true
+		}
+		j := strings.Index(part, ": ")
+		if j <= 0 {
+			return false
+		}
+		vals[part[:j]] = part[j+2:]
+		return true
+	}
+	for k := 0; k < len(body); k++ {
+		ch := body[k]
+		switch {
+		case ch == '"' && (k == 0 || body[k-1] != '\\'):
+			inStr = !inStr
+		case inStr:
+		case ch == '(' || ch == '{' || ch == '[':
+			depth++
+		case ch == ')' || ch == '}' || ch == ']':
+			depth--
+		case ch == ',' && depth == 0:
+			if !flush(k) {
+				return "", nil, false
+			}
+			start = k + 1
+		}
+	}
+	if !flush(len(body)) {
+		return "", nil, false
+	}
+	return typ, vals, true
+}
+
+// fieldStore: 'x.F = v' where x is a local holding a struct value (or a pointer to a fresh one) that
+// is known as a literal: the local's value becomes the literal with F set.
+func (d *dtEnum) fieldStore(p *dtPath, lhs ast.Expr, val string) {
+	sel, ok := ast.Unparen(lhs).(*ast.SelectorExpr)
+	if !ok {
+		return
+	}
+	id, ok := ast.Unparen(sel.X).(*ast.Ident)
+	if !ok {
+		return
+	}
+	obj := d.info.Uses[id]
+	v, ok := obj.(*types.Var)
+	if !ok || v.IsField() {
+		return
+	}
+	if s := d.info.Selections[sel]; s == nil || s.Kind() != types.FieldVal || len(s.Index()) != 1 {
+		return
+	}
+	st, ok := structOf(v.Type())
+	if !ok {
+		return
+	}
+	cur, bound := p.env[obj]
+	if !bound {
+		return
+	}
+	_, isPtr := v.Type().Underlying().(*types.Pointer)
+	name := types.TypeString(v.Type(), func(pk *types.Package) string {
+		if pk == v.Pkg() {
+			return ""
+		}
+		return pk.Name()
+	})
+	name = strings.TrimPrefix(name, "*")
+	prefix := ""
+	if isPtr {
+		prefix = "&"
+	}
+	if cur == "zero" && !isPtr {
+		cur = name + "{}"
+	}
+	typ, vals, ok := splitStructLit(strings.TrimPrefix(cur, prefix))
+	if !ok || isPtr && !strings.HasPrefix(cur, "&") {
+		return
+	}
+	vals[sel.Sel.Name] = val
+	p.env[obj] = prefix + renderStructLit(typ, st, vals)
+}
+
+// returnWith ends the current function on path p with the given values: to the caller's
+// continuation when a followed call is being evaluated, as a finished path otherwise.
+func (d *dtEnum) returnWith(p *dtPath, rets []string, pos token.Pos) {
+	if n := len(d.frames); n > 0 {
+		f := d.frames[n-1]
+		d.frames = d.frames[:n-1]
+		f.k(p, rets)
+		d.frames = append(d.frames, f)
+		return
+	}
+	p.Ret = append(p.Ret, rets...)
+	p.RetPos = pos
+	d.finish(p, "return")
 }
